@@ -88,6 +88,7 @@ func init() {
 	register("C05",
 		"Structural necessary conditions of 'decoders are total and allocation-bounded': no guard arithmetic on a decoded count can wrap in a narrow unsigned type. (Further clauses are added by the shape interpreter.)",
 		ruleNarrowArith(inDecoders, 2),
+		ruleQuadraticAlloc(inDecoders, 5),
 		func(c *Ctx) {
 			nb, ns, lim := 24, 16, Limits{MaxStates: 2500, MaxSteps: 20000, MaxVisits: 3, MaxDepth: 40}
 			if c.Thorough() {
